@@ -17,6 +17,7 @@ RULE = ("(a) FakeBLE -> FakeBLE over the simulated air on all three channels and
         "advertised at the service's resolution, nothing queued for inconsistent length/CRC, no "
         "exception from available(), read() in arrival order. Non-trivial: a packet was decoded "
         "or rejected by the reference; distinct = (packet class, field shapes, channel).")
+RULE += (" Later rounds added: reserved length bits, per-packet TX power without re-toggling, damaged repeats of a packet the receiver has just accepted, URLs with several expansion codes, byte / multi-byte names and the complete-name type, a with boundary after the channel was assigned, the air kind on all three channels.")
 REQUIRED = {"valid_decoded_equal": 600, "corrupted_not_queued": 1500, "available_never_raises": 3000,
             "read_order": 200, "service_values": 400}
 BUDGET = {"quick": 480, "thorough": 900}
